@@ -293,6 +293,17 @@ def real_stream_worker(args):
                 rec['cands'] = wire
                 rec['names'] = names
             rec['reset'] = (span_token._token_types == before) and not any(c in span_token._token_types for c in customs)
+            # ... and a context that is left by an exception ends all the same
+            try:
+                with R(*customs):
+                    raise ZeroDivisionError('the with block is left by an exception')
+            except ZeroDivisionError:
+                pass
+            rec['reset_after_exception'] = (span_token._token_types == before) and not any(c in span_token._token_types for c in customs)
+            if not rec['reset_after_exception']:
+                span_token.reset_tokens()
+                from mistletoe import block_token as _bt
+                _bt.reset_tokens()
         except Exception as e:
             rec['error'] = '%s: %s' % (type(e).__name__, e)
             span_token.reset_tokens()
@@ -387,6 +398,9 @@ def run(ctx):
         if not r['registered'] or not r['reset']:
             ctx.failing.append({'interface': 'real-renderer', 'input': {'text': r['text'], 'customs': r['customs']},
                                 'what': 'custom tokens not active exactly inside the renderer context', 'kf': None})
+        elif not r.get('reset_after_exception', True):
+            ctx.failing.append({'interface': 'real-renderer', 'input': {'text': r['text'], 'customs': r['customs'], 'context_left_by': 'an exception raised in the with block'},
+                                'what': 'custom tokens are still recognised after a renderer context that was left by an exception', 'kf': None})
     for r, m in zip(good, model):
         ms = model_shape(m, r['names'], r['text'])
         if ms != r['impl']:
